@@ -1263,3 +1263,9 @@ def g_compile_any(rng, level=0, n_random=120):
             yield {'self': ci.CliffordGate(*range(int(rng.integers(1, 4))))}        # nothing set: must raise Exception
         else:
             yield {'self': _any_gate(rng, int(rng.integers(1, 4)), 'forward' if k % 2 else 'backward')}
+
+
+@gen(CI + 'CliffordGate.copy#any')
+def g_copy_any(rng, level=0, n_random=100):
+    for k in range(n_random):
+        yield {'self': _any_gate(rng, int(rng.integers(1, 5)), 'forward' if k % 2 else 'backward')}
